@@ -409,6 +409,26 @@ func runC07(p *core.Prog, r *core.Report) {
 func (t *tlInfo) canonCount(v ssa.Value) ssa.Value {
 	for i := 0; i < 6; i++ {
 		v = sx.Unspill(v)
+		// a field of the lane under construction read back (`tl.laneSize` in a start helper): what the constructor stored
+		if ld, ok := v.(*ssa.UnOp); ok && ld.Op == token.MUL {
+			if fa, ok := ld.X.(*ssa.FieldAddr); ok && sx.IsFreshObject(fa.X) {
+				var stored ssa.Value
+				n := 0
+				sx.Instrs(ld.Parent(), func(in ssa.Instruction) {
+					if st, ok := in.(*ssa.Store); ok {
+						if fa2, ok := st.Addr.(*ssa.FieldAddr); ok && fa2.X == fa.X && fa2.Field == fa.Field {
+							n++
+							stored = st.Val
+						}
+					}
+				})
+				if n == 1 {
+					v = stored
+					continue
+				}
+			}
+			return v
+		}
 		c, ok := v.(*ssa.Call)
 		if !ok {
 			return v
@@ -643,7 +663,9 @@ func runC08(p *core.Prog, r *core.Report) {
 			}
 			nInCtor++
 			for _, h := range sx.LoopHeaders(t.Ctor) {
-				if !sx.LoopBody(h)[g.Block()] || g.Block() == h {
+				// (the test block of an ordinary loop runs once more than the body; a one-block `for range n` loop is
+				// body and test at once and runs n times behind its guard)
+				if !sx.LoopBody(h)[g.Block()] || (g.Block() == h && (len(h.Succs) == 0 || h.Succs[0] != h)) {
 					continue
 				}
 				bound, ok := sx.LoopTrip(h)
